@@ -298,3 +298,50 @@ mod tests {
         assert!(fxr.__eq__(fxr2))
     }
 }
+
+// verification hooks: Rust-callable wrappers of the Python-facing FXRates methods above
+#[cfg(feature = "verif")]
+impl FXRates {
+    pub fn verif_py_new(fx_rates: Vec<FXRate>, base: Option<Ccy>) -> Result<Self, ()> {
+        FXRates::new_py(fx_rates, base).map_err(|_| ())
+    }
+    pub fn verif_py_fx_rates(&self) -> Vec<FXRate> {
+        self.fx_rates_py().unwrap()
+    }
+    pub fn verif_py_currencies(&self) -> Vec<Ccy> {
+        self.currencies_py().unwrap()
+    }
+    pub fn verif_py_ad(&self) -> u8 {
+        self.ad_py().unwrap()
+    }
+    pub fn verif_py_base(&self) -> Ccy {
+        self.base_py().unwrap()
+    }
+    pub fn verif_py_fx_vector(&self) -> Vec<Number> {
+        self.fx_vector_py().unwrap()
+    }
+    pub fn verif_py_fx_array(&self) -> Vec<Vec<Number>> {
+        self.fx_array_py().unwrap()
+    }
+    pub fn verif_py_get_ccy_index(&self, currency: Ccy) -> Option<usize> {
+        self.get_ccy_index_py(currency)
+    }
+    pub fn verif_py_rate(&self, lhs: &Ccy, rhs: &Ccy) -> Option<Number> {
+        self.rate_py(lhs, rhs).unwrap()
+    }
+    pub fn verif_py_update(&mut self, fx_rates: Vec<FXRate>) -> Result<(), ()> {
+        self.update_py(fx_rates).map_err(|_| ())
+    }
+    pub fn verif_py_set_ad_order(&mut self, ad: ADOrder) -> Result<(), ()> {
+        self.set_ad_order_py(ad).map_err(|_| ())
+    }
+    pub fn verif_py_getnewargs(&self) -> (Vec<FXRate>, Option<Ccy>) {
+        self.__getnewargs__().unwrap()
+    }
+    pub fn verif_py_eq(&self, other: FXRates) -> bool {
+        self.__eq__(other)
+    }
+    pub fn verif_py_copy(&self) -> Self {
+        self.__copy__()
+    }
+}
